@@ -1,9 +1,10 @@
 /-
   C07 — failed tests are retried as configured: count, stop on success, backoff.
-  Property theorems only (backoff part; `--retries` is C06.cli_retries_wins, refusal of retries once
+  Property theorems only (the backoff iterator, and the attempt loop of run_test_instance; `--retries` is C06.cli_retries_wins, refusal of retries once
   the run is cancelled is C10.no_start_after_cancel).
 -/
 import NextestModel.Model.Classify
+import NextestModel.Lemmas.Attempts
 namespace NextestModel.C07
 open NextestModel.Classify
 
@@ -101,5 +102,100 @@ theorem exp_delay_capped (c d m : Nat) (j : Bool) :
 /-! ## Non-vacuity -/
 example : delays (.exponential 5 100 false (some 350)) = [100, 200, 350, 350, 350] := by decide
 example : delays (.exponential 3 100 false none) = [100, 200, 400] := by decide
+
+/-! ## The attempt loop of `run_test_instance` -/
+
+section loop
+open NextestModel.Attempts NextestModel.Dispatcher
+
+/-- the attempt loop never trips its `expect("backoff delay must be non-empty")`: for every policy, every behaviour of the
+    test's processes and every pattern of acknowledgements -/
+theorem attempt_loop_never_panics (p : Policy) (env : Env) : ∃ evs, runTestInstance p env = some evs := by
+  unfold runTestInstance
+  split
+  · exact ⟨_, rfl⟩
+  · obtain ⟨evs, h⟩ := loop_some (p.count + 1) env (p.count + 1) 0 [] (delays p) (by rw [count_exact]) (by omega)
+    simp [h]
+
+private theorem run_cases (p : Policy) (env : Env) (evs : List XEv) (h : runTestInstance p env = some evs) :
+    (env.ackStart = false ∧ evs = [.started]) ∨
+    (env.ackStart = true ∧ ∃ rest, loop (p.count + 1) env (p.count + 1) 0 [] (delays p) = some rest ∧ evs = .started :: rest) := by
+  unfold runTestInstance at h
+  split at h
+  · rename_i ha; simp at h; subst h; exact Or.inl ⟨by simpa using ha, rfl⟩
+  · rename_i ha
+    cases hl : loop (p.count + 1) env (p.count + 1) 0 [] (delays p) with
+    | none => simp [hl] at h
+    | some rest => simp [hl] at h; subst h; exact Or.inr ⟨by simpa using ha, rest, rfl, rfl⟩
+
+/-- **a test is attempted at most N + 1 times under a policy allowing N retries, each attempt one spawn, numbered 1, 2, … consecutively** -/
+theorem attempts_bound (p : Policy) (env : Env) (evs : List XEv) (h : runTestInstance p env = some evs) :
+    (spawns evs).length ≤ p.count + 1 ∧ spawns evs = List.range' 1 (spawns evs).length := by
+  rcases run_cases p env evs h with ⟨_, rfl⟩ | ⟨_, rest, hl, rfl⟩
+  · simp [spawns]
+  · obtain ⟨h1, h2⟩ := loop_spawns _ env _ 0 [] _ rest (by omega) hl
+    simp only [spawns]
+    exact ⟨by omega, by simpa using h1⟩
+
+/-- **never retried after a passing attempt**: every attempt that was followed by another one had failed -/
+theorem stop_on_success (p : Policy) (env : Env) (evs : List XEv) (h : runTestInstance p env = some evs) :
+    ∀ k ∈ (spawns evs).dropLast, (env.outcome k).isSuccess = false := by
+  rcases run_cases p env evs h with ⟨_, rfl⟩ | ⟨_, rest, hl, rfl⟩
+  · simp [spawns]
+  · exact (loop_discipline _ env _ 0 [] _ rest hl).1
+
+/-- **never retried once the run is being cancelled**: a second or later attempt is spawned only after the dispatcher
+    acknowledged its `RetryStarted` (which `C10.no_start_after_cancel` shows it refuses after cancellation began) -/
+theorem no_retry_unless_acknowledged (p : Policy) (env : Env) (evs : List XEv) (h : runTestInstance p env = some evs) :
+    ∀ k ∈ spawns evs, k ≤ 1 ∨ env.ackRetry k = true := by
+  rcases run_cases p env evs h with ⟨_, rfl⟩ | ⟨_, rest, hl, rfl⟩
+  · simp [spawns]
+  · exact (loop_discipline _ env _ 0 [] _ rest hl).2
+
+/-- **retried after each failure until the bound**: when no retry is refused, the unit reports a final result whose last attempt
+    passed or which used all N + 1 attempts -/
+theorem retried_until_pass_or_bound (p : Policy) (env : Env) (evs : List XEv) (h : runTestInstance p env = some evs)
+    (hstart : env.ackStart = true) (hack : ∀ k, env.ackRetry k = true) :
+    ∃ k, (spawns evs).getLast? = some k ∧ ((env.outcome k).isSuccess = true ∨ k = p.count + 1) ∧
+      finisheds evs = [(spawns evs).map env.outcome] := by
+  rcases run_cases p env evs h with ⟨h0, _⟩ | ⟨_, rest, hl, rfl⟩
+  · rw [hstart] at h0; cases h0
+  · simp only [spawns, finisheds]
+    rcases loop_finished _ env _ 0 [] _ rest (by omega) hl with h0 | ⟨h1, _, _, k, hk, hk2⟩
+    · -- no Finished: impossible, some retry would have been refused
+      exfalso
+      have key : ∀ fuel done acc ds evs', fuel + done = p.count + 1 → 0 < fuel → loop (p.count + 1) env fuel done acc ds = some evs' → finisheds evs' ≠ [] := by
+        intro fuel
+        induction fuel with
+        | zero => intro _ _ _ _ _ hz; omega
+        | succ fuel ih =>
+          intro done acc ds evs' hsum _ hl'
+          rcases loop_unfold _ env fuel done acc ds evs' hl' with ⟨_, hr, _⟩ | ⟨_, ⟨_, rfl⟩ | ⟨_, hlt, d, ds', rest', rfl, hr, rfl⟩⟩
+          · rw [hack] at hr; cases hr
+          · rw [finisheds_pre]; simp [finisheds]
+          · rw [List.append_assoc, finisheds_pre]; simp only [List.cons_append, List.nil_append, finisheds]
+            cases fuel with
+            | zero => omega
+            | succ f => exact ih (done + 1) _ ds' rest' (by omega) (by omega) hr
+      exact key _ 0 [] _ rest (by omega) (by omega) hl h0
+    · exact ⟨k, hk, hk2, by simpa using h1⟩
+
+/-- the delay announced before each retry is the backoff iterator's next value (`fixed_delay`, `exp_delay_closed_form`,
+    `exp_delay_capped` say what those are) -/
+theorem announced_delays_are_backoff (p : Policy) (env : Env) (evs : List XEv) (h : runTestInstance p env = some evs) :
+    announcedDelays evs <+: delays p := by
+  rcases run_cases p env evs h with ⟨_, rfl⟩ | ⟨_, rest, hl, rfl⟩
+  · simp [announcedDelays]
+  · simpa [announcedDelays] using loop_delays _ env _ 0 [] _ rest hl
+
+-- non-vacuity: 2 retries, attempts fail, fail, pass
+example : runTestInstance (.fixed 2 5 false) { outcome := fun k => if k < 3 then .fail none false else .pass, ackStart := true, ackRetry := fun _ => true } =
+    some [.started, .spawn 1, .willRetry 1 (.fail none false) 5, .retryStarted 2, .spawn 2, .willRetry 2 (.fail none false) 5,
+          .retryStarted 3, .spawn 3, .finished [.fail none false, .fail none false, .pass]] := by decide
+-- the run is cancelled while the unit waits out its first delay: the retry is refused, nothing more is spawned or reported
+example : runTestInstance (.fixed 2 5 false) { outcome := fun _ => .fail none false, ackStart := true, ackRetry := fun _ => false } =
+    some [.started, .spawn 1, .willRetry 1 (.fail none false) 5, .retryStarted 2] := by decide
+
+end loop
 
 end NextestModel.C07
